@@ -313,6 +313,7 @@ fn workload_inner(rng: &mut Rng, tier: Tier, volume: bool) -> Workload {
         placeholder_strings: false,
         risky_specials: risky,
         layout_variants: false,
+        hostile_strings: false,
     };
     // one workload in 150 is a report: 9-65 output files, one per value of a test
     let expr = if !volume && rng.chance(1, 150) { gen::report_expression(rng) } else { gen::expression(rng, &cfg) };
@@ -1031,6 +1032,16 @@ pub fn run_block(seed: u64, first: u64, count: u64, tier: Tier) -> Result<BlockR
                 br.digests.push(mix(&[hash_str(&why)]));
                 continue;
             }
+            // a probe workload uses syntax only a changed tree knows; if the program it compiles to
+            // needs a construct the stub does not have, this one workload cannot be decided: it is
+            // set aside and counted. For the vocabulary the harness was written for, an unknown
+            // construct stops the check (exit 2).
+            Prep::Harness(e) if w.probe && e.starts_with("stub runtime cannot evaluate") => {
+                br.bump("probe_workloads_set_aside", 1);
+                br.bump("probe_workloads_with_constructs_unknown_to_the_stub", 1);
+                br.digests.push(mix(&[hash_str("unsupported")]));
+                continue;
+            }
             Prep::Harness(e) => return Err(format!("run {index}: {e}")),
             Prep::Violation(v) => {
                 br.digests.push(mix(&[hash_str(&v.class)]));
@@ -1730,6 +1741,17 @@ pub fn selftests() -> Vec<(&'static str, bool, String)> {
         ),
         None,
         3000,
+        None,
+    );
+    case(
+        "letrec with mutually referring procedures, cond =>, case on #f and characters, rest parameters, apply throw: evaluated; never torn",
+        &w3,
+        wrap_program(
+            "(p (current-output-port)) (m (make-mutex)) (mk (letrec ((suffix-of (lambda (t) (case t ((#f) \"\") ((#\\x0a) \"\\n\") (else (list->string (list t)))))) (construct (lambda (term) (let ((suffix (suffix-of term))) (lambda (line . more) (let ((record (apply string-append (append (cons line more) (list suffix))))) (lock-mutex m) (catch #t (lambda () (display record p)) (lambda (key . args) (unlock-mutex m) (apply throw key args))) (unlock-mutex m) (cond ((assv term '((#\\x0a . yes))) => cdr) (else #t)))))))) construct)) (pr (mk #\\x0a))",
+            "(call-with-relative-path pr)",
+        ),
+        None,
+        2000,
         None,
     );
     case(
